@@ -7,6 +7,9 @@
 // input (fields separated by one space, all numbers hex):
 //   vs <weights|-> <perms|->
 //   vc <weights|-> <base> <parents|-> <headers|-> <tblk> <tnum> <precommits|-> <perms|->
+//   vg <weights|-> <base> <parents|-> <headers|-> <tblk> <tnum> <precommits|-> <perms|-> <labels>
+//               as vc, but the hash string of block i is derived from labels[i] (a permutation of the block
+//               indices): the vote graph orders its candidates by hash, the verdict must not depend on it
 //     weights     id:w,id:w,...   the IDWeight list handed to NewVoterSet, in this order (repeats, zeros allowed)
 //     base        number of block 0;  parents p1,p2,..: block i has parent p_i (< i); number = base + depth
 //     headers     block labels whose (hash -> parent) link the chain knows (the vote-ancestry headers)
@@ -16,7 +19,8 @@
 //                 the identity order is always run first
 // observables:
 //   vs -> one result per order, `;` separated:  nil | <total>/<threshold>/id:w:pos,id:w:pos,..
-//   vc -> one result per order, `;` separated:  <r32>/<r64>, r = <valid 0|1>:<num>:<dup>:<eqv>:<invalid> | err | panic
+//   vc -> one result per order, `;` separated:  <r32>/<r64>/<r64s>, r = <valid 0|1>:<num>:<dup>:<eqv>:<invalid> | err | panic
+//         r64s = the uint64 run with 2^33 added to every block number (C19_number_shift_free on the implementation)
 package grandpa
 
 import (
@@ -96,16 +100,16 @@ type c19Pc struct {
 }
 
 func c19Validate[N constraints.Unsigned](voters *VoterSet[string], parent map[string]string,
-	tblk int, tnum uint64, pcs []c19Pc) (out string) {
+	tblk int, tnum uint64, pcs []c19Pc, c19Hash func(int) string, shift uint64) (out string) {
 	defer func() {
 		if r := recover(); r != nil {
 			out = "panic"
 		}
 	}()
-	commit := Commit[string, N, string, string]{TargetHash: c19Hash(tblk), TargetNumber: N(tnum)}
+	commit := Commit[string, N, string, string]{TargetHash: c19Hash(tblk), TargetNumber: N(tnum + shift)}
 	for _, p := range pcs {
 		commit.Precommits = append(commit.Precommits, SignedPrecommit[string, N, string, string]{
-			Precommit: Precommit[string, N]{TargetHash: c19Hash(p.blk), TargetNumber: N(p.num)},
+			Precommit: Precommit[string, N]{TargetHash: c19Hash(p.blk), TargetNumber: N(p.num + shift)},
 			Signature: p.sig, ID: c19ID(p.id)})
 	}
 	res, err := ValidateCommit[string, N, string, string](commit, *voters, c19Chain[N]{parent: parent})
@@ -137,9 +141,19 @@ func c19Run(in string) string {
 			outs = append(outs, c19VoterSetString(NewVoterSet(pw)))
 		}
 		return strings.Join(outs, ";")
-	case "vc":
-		if len(f) != 9 {
+	case "vc", "vg":
+		if (f[0] == "vc" && len(f) != 9) || (f[0] == "vg" && len(f) != 10) {
 			return "err:badinput"
+		}
+		c19Hash := c19Hash
+		if f[0] == "vg" {
+			labels := c19Ints(f[9])
+			c19Hash = func(b int) string {
+				if b >= 0 && b < len(labels) {
+					return fmt.Sprintf("b%04x", labels[b])
+				}
+				return fmt.Sprintf("b%04x", 0x1000+b)
+			}
 		}
 		voters := NewVoterSet(c19Weights(f[1]))
 		if voters == nil {
@@ -168,8 +182,9 @@ func c19Run(in string) string {
 			for i, j := range perm {
 				pp[i] = pcs[j]
 			}
-			outs = append(outs, c19Validate[uint32](voters, parent, tblk, tnum, pp)+"/"+
-				c19Validate[uint64](voters, parent, tblk, tnum, pp))
+			outs = append(outs, c19Validate[uint32](voters, parent, tblk, tnum, pp, c19Hash, 0)+"/"+
+				c19Validate[uint64](voters, parent, tblk, tnum, pp, c19Hash, 0)+"/"+
+				c19Validate[uint64](voters, parent, tblk, tnum, pp, c19Hash, 1<<33))
 		}
 		return strings.Join(outs, ";")
 	}
@@ -189,6 +204,13 @@ func c19Gen(r *vu.RNG, n int, emit func(string)) {
 				k = len(strings.Split(ws, ","))
 			}
 			emit(fmt.Sprintf("vs %s %s", ws, c19GenPerms(r, k)))
+			continue
+		}
+		if i%6 == 5 { // the nested-fork family, hash labels permuted
+			c := c19GenNested(r)
+			pcs := c.pcString(func(int) string { return "0" })
+			emit(fmt.Sprintf("vg %s %s %s %s %s %s %s %s %s", c.weights, vu.X(c.tree.base), c19Join(c.tree.parents),
+				c19Join(c.headers), vu.X(uint64(c.tblk)), vu.X(c.tnum), pcs, c19GenPerms(r, len(c.pcs)), c19Join(c.labels)))
 			continue
 		}
 		c := c19GenCommit(r)
